@@ -89,10 +89,25 @@ def call(cfg, variant=0):
     # the class with the same options must return exactly what the function returns
     cls_equal = None
     if not cfg["hw"] and cfg["mo"] != "weights" and (cfg["mo"] == "uniform" or ncol == 1):
-        inst = getattr(M, CLASS_OF[m])(**ckw)
-        cv = inst(yt, yp, **extra)
+        from sklearn.base import clone
         fv = f(yt, yp, **extra, **ckw)
-        cls_equal = bool(np.array_equal(np.asarray(cv), np.asarray(fv), equal_nan=True))
+        C = getattr(M, CLASS_OF[m])
+        # built with the options, re-parameterised after construction with defaults, and a clone of either
+        insts = [C(**ckw), C().set_params(**ckw), clone(C(**ckw))]
+        flip = {k: (not v if isinstance(v, bool) else v + 1) for k, v in ckw.items() if isinstance(v, (bool, int))}
+        if flip:
+            insts.append(C(**dict(ckw, **flip)).set_params(**ckw))
+        cls_equal = all(bool(np.array_equal(np.asarray(i(yt, yp, **extra)), np.asarray(fv), equal_nan=True)) for i in insts)
+        cls_equal = cls_equal and all(i.get_params()[k] == v for i in insts for k, v in ckw.items() if not callable(v))
+    # averaging over output columns: the aggregate is the (weighted) mean of the per-column values.  Scaled errors and
+    # relative_loss aggregate numerator and denominator separately (as documented) and are not judged by this clause
+    if ncol == 2 and cfg["mo"] == "raw" and m not in SCALED and m != "relative_loss" and np.all(np.isfinite(out)):
+        base = dict(kw)
+        base.pop("multioutput")
+        u = f(yt, yp, **extra, **ckw, **base, multioutput="uniform_average")
+        w = f(yt, yp, **extra, **ckw, **base, multioutput=[1.0, 3.0])
+        if not (np.isclose(u, np.mean(out), rtol=1e-12, atol=0) and np.isclose(w, np.average(out, weights=[1, 3]), rtol=1e-12, atol=0)):
+            cls_equal = "agg"
     return out, cls_equal
 
 
@@ -165,6 +180,8 @@ def run(ctx):
                 not all(matches(e, d) for e, d in zip(exp_cols, obs["cols"])):
             ctx.violation(sc, "spec->code: %s returned %s (decoded, power %d: %s); definition gives %s"
                           % (cfg["metric"], obs["raw"], obs["pow"], canon(obs["cols"])[:200], canon(exp_cols)[:200]))
+        elif obs["cls"] == "agg":
+            ctx.violation(sc, "AggregateIsMeanOfColumns: %s uniform / weighted multioutput differs from the mean of raw_values" % cfg["metric"])
         elif obs["cls"] is False:
             ctx.violation(sc, "ClassEqualsFunction: %s class differs from function" % cfg["metric"])
         if any(a != b for c in cfg["cols"] for a, b in zip(c["yt"], c["yp"])):
@@ -182,8 +199,8 @@ def run(ctx):
         if "crash" in obs:
             ctx.violation({"cfg": cfg, "variant": t % 12}, "%s raised %s" % (cfg["metric"], obs["crash"]))
             continue
-        if obs["cls"] is False:
-            ctx.violation({"cfg": cfg, "variant": t % 12}, "ClassEqualsFunction: %s" % cfg["metric"])
+        if obs["cls"] is False or obs["cls"] == "agg":
+            ctx.violation({"cfg": cfg, "variant": t % 12}, "%s: %s" % ("ClassEqualsFunction" if obs["cls"] is False else "AggregateIsMeanOfColumns", cfg["metric"]))
         recs.append({"tid": t, "cfg": cfg, "obs": {"pow": obs["pow"], "cols": obs["cols"]}, "raw": obs["raw"]})
         ctx.nontriv(cfg)
     rejects, _ = ctx.judge("TraceMetrics", "TraceMetrics.cfg",
@@ -211,7 +228,7 @@ def replay(ctx, doc):
     sc = doc["scenario"]
     obs = observe(sc["cfg"], sc.get("variant", 0))
     print("observed:", canon(obs)[:1500])
-    if "crash" in obs or obs.get("cls") is False:
+    if "crash" in obs or obs.get("cls") in (False, "agg"):
         print("VIOLATION property=C06 replay=%s" % ctx.replay)
         return 1
     rejects, _ = ctx.judge("TraceMetrics", "TraceMetrics.cfg",
